@@ -138,6 +138,7 @@ def generate(seed, tier, enlarged=False):
     from harness import live
     n_live = 40 if tier == 'quick' else 600
     cases += [live.gen_case(rng) for _ in range(n_live)]
+    cases += live.corpus()
     return cases
 
 
@@ -454,7 +455,8 @@ def run(cases, tier='quick', seed=0):
         run_impl, render = staticmethod(live.run_impl), staticmethod(live.render)
         # a step observes the effects of its dependencies (also their structural ones), and every step that
         # exists when a phase begins runs exactly once in it
-        oracle = staticmethod(lambda c, ob, rng: live.oracle(c, ob, rng) + live.oracle_phases(c, ob, rng))
+        oracle = staticmethod(lambda c, ob, rng: live.oracle(c, ob, rng) + live.oracle_phases(c, ob, rng) +
+                              live.oracle_rels(c, ob, rng))
         nontrivial, stat_key = staticmethod(live.nontrivial), staticmethod(live.stat_key)
     return common.merge_streams(cases, [
         (lambda c: c['kind'] != 'live', lambda cs: common.generic_run(me, cs, seed, shard=100)),
